@@ -169,6 +169,16 @@ Theorem C15_neat_any_speciation :
 Proof. exact neat_any_speciation. Qed.
 Print Assumptions C15_neat_any_speciation.
 
+(* The one excluded shape, refuted (open finding C15/nested-deduping/shared-metadata-slots): a Deduping applied
+   directly to a Deduping.  Both keep 'dedup_key' and 'dedup_skipped' in the same metadata slots of the DNA. *)
+Theorem C15_nested_deduping_refuted :
+  let g := denote 6 ex_nested in
+  let r := run_events g (fun _ => 1%Z) [0; 0; 1; 0]%Z in
+  recoverable ex_nested = false /\ r_ok g r = true /\
+  pview (obs g (recovered g (r_hist g r))) <> pview (obs g (r_st g r)).
+Proof. exact nested_deduping_not_recovered. Qed.
+Print Assumptions C15_nested_deduping_refuted.
+
 (* Not recovered (and not claimed by the property): num_generations while the initial population is still
    being proposed — 0 in the uninterrupted run, 1 after recover. *)
 Theorem C15_extra_state_refuted :
